@@ -239,10 +239,14 @@ def led__arrow_operator(self: XPathToken, left: XPathToken) -> XPathToken:
     if next_token.symbol == '$':
         self[:] = left, self.parser.expression(80)
     elif isinstance(next_token, ProxyToken):
-        self.parser.parse_arguments = False
-        self[:] = left, next_token.nud()
-        self.parser.parse_arguments = True
+        # a function name that exists in more namespaces (fn:remove / array:remove):
+        # the proxy resolves it when it is the current token, followed by '('
         self.parser.advance()
+        self.parser.parse_arguments = False
+        try:
+            self[:] = left, next_token.nud()
+        finally:
+            self.parser.parse_arguments = True
     elif isinstance(next_token, XPathFunction):
         self[:] = left, next_token
         if next_token.label == 'kind test':
